@@ -448,12 +448,26 @@ func (fr *Frame) external(callee *ssa.Function, x *ssa.Call, args []Val, st *Sta
 		c.usedAssumed[full+": first occurrence of the substring or -1"] = true
 		s, p := args[0], args[1]
 		r := c.declare(c.fresh("idx"), "Int")
-		match := func(k string) string { return fr.matchAt(s, k, p) }
-		k1 := c.fresh("qk")
-		k2 := c.fresh("qk")
-		notFound := sAnd(sEq(r, "(- 1)"), "(forall (("+k1+" Int)) (=> (and (<= 0 "+k1+") (<= (+ "+k1+" "+p.C[2]+") "+s.C[2]+")) (not "+match(k1)+")))")
-		found := sAnd("(<= 0 "+r+")", "(<= (+ "+r+" "+p.C[2]+") "+s.C[2]+")", match(r),
-			"(forall (("+k2+" Int)) (=> (and (<= 0 "+k2+") (< "+k2+" "+r+")) (not "+match(k2)+")))")
+		// quantify over the absolute start index j of a candidate match (pattern: (select A j))
+		absMatch := func(j string) string { return fr.matchAbs(s, j, p) }
+		lastStart := lSub(lAdd(s.C[1], s.C[2]), p.C[2]) // O + len(s) - len(p)
+		j1 := c.fresh("qj")
+		j2 := c.fresh("qj")
+		pat := func(j string) string {
+			if c.patternable(s.C[0]) {
+				return " :pattern ((select " + s.C[0] + " " + j + "))"
+			}
+			return ""
+		}
+		wrap := func(j, body string) string {
+			if pt := pat(j); pt != "" {
+				return "(forall ((" + j + " Int)) (! " + body + pt + "))"
+			}
+			return "(forall ((" + j + " Int)) " + body + ")"
+		}
+		notFound := sAnd(sEq(r, "(- 1)"), wrap(j1, "(=> (and (<= "+s.C[1]+" "+j1+") (<= "+j1+" "+lastStart+")) (not "+absMatch(j1)+"))"))
+		found := sAnd("(<= 0 "+r+")", "(<= (+ "+r+" "+p.C[2]+") "+s.C[2]+")", absMatch(lAdd(s.C[1], r)),
+			wrap(j2, "(=> (and (<= "+s.C[1]+" "+j2+") (< "+j2+" "+lAdd(s.C[1], r)+")) (not "+absMatch(j2)+"))"))
 		c.assume(sOr(notFound, found))
 		return mk(x.Type(), r)
 	case "strings.Contains":
@@ -461,9 +475,15 @@ func (fr *Frame) external(callee *ssa.Function, x *ssa.Call, args []Val, st *Sta
 		s, p := args[0], args[1]
 		b := c.declare(c.fresh("has"), "Bool")
 		w := c.declare(c.fresh("wit"), "Int")
-		k1 := c.fresh("qk")
-		c.assume(sImp(b, sAnd("(<= 0 "+w+")", "(<= (+ "+w+" "+p.C[2]+") "+s.C[2]+")", fr.matchAt(s, w, p))))
-		c.assume(sImp(sNot(b), "(forall (("+k1+" Int)) (=> (and (<= 0 "+k1+") (<= (+ "+k1+" "+p.C[2]+") "+s.C[2]+")) (not "+fr.matchAt(s, k1, p)+")))"))
+		lastStart := lSub(lAdd(s.C[1], s.C[2]), p.C[2])
+		j1 := c.fresh("qj")
+		c.assume(sImp(b, sAnd("(<= "+s.C[1]+" "+w+")", "(<= "+w+" "+lastStart+")", fr.matchAbs(s, w, p))))
+		body := "(=> (and (<= " + s.C[1] + " " + j1 + ") (<= " + j1 + " " + lastStart + ")) (not " + fr.matchAbs(s, j1, p) + "))"
+		if c.patternable(s.C[0]) {
+			c.assume(sImp(sNot(b), "(forall (("+j1+" Int)) (! "+body+" :pattern ((select "+s.C[0]+" "+j1+"))))"))
+		} else {
+			c.assume(sImp(sNot(b), "(forall (("+j1+" Int)) "+body+")"))
+		}
 		return Val{K: KBool, T: x.Type(), C: []string{b}}
 	case "strings.ToUpper", "strings.ToLower":
 		c.usedAssumed[full+": byte-wise ASCII mapping when all bytes < 0x80, unspecified otherwise"] = true
@@ -572,9 +592,38 @@ func (c *Ctx) recordCase(fn string, arg, res Val) {
 	c.caseCalls[fn] = append(c.caseCalls[fn], [2]Val{arg, res})
 }
 
+// matchAbs: the pattern p occurs in s's backing array starting at absolute index j
+func (fr *Frame) matchAbs(s Val, j string, p Val) string {
+	c := fr.c
+	if n, ok := litInt(p.C[2]); ok && p.Lit == nil && n >= 0 && n <= 4 {
+		var conj []string
+		for i := int64(0); i < n; i++ {
+			conj = append(conj, sEq(sSel(s.C[0], lAdd(j, fmt.Sprint(i))), sSel(p.C[0], lAdd(p.C[1], fmt.Sprint(i)))))
+		}
+		return sAnd(conj...)
+	}
+	if p.Lit != nil {
+		var conj []string
+		for i := 0; i < len(*p.Lit); i++ {
+			conj = append(conj, sEq(sSel(s.C[0], lAdd(j, fmt.Sprint(i))), fmt.Sprint(int((*p.Lit)[i]))))
+		}
+		return sAnd(conj...)
+	}
+	q := c.fresh("qm")
+	return "(forall ((" + q + " Int)) (=> (and (<= 0 " + q + ") (< " + q + " " + p.C[2] + ")) (= (select " + s.C[0] + " (+ " + j + " " + q + ")) (select " + p.C[0] + " (+ " + p.C[1] + " " + q + ")))))"
+}
+
 // matchAt: s[k : k+len(p)] == p
 func (fr *Frame) matchAt(s Val, k string, p Val) string {
 	c := fr.c
+	if n, ok := litInt(p.C[2]); ok && p.Lit == nil && n >= 0 && n <= 4 {
+		// pattern of small constant length: compare byte by byte
+		var conj []string
+		for i := int64(0); i < n; i++ {
+			conj = append(conj, sEq(sSel(s.C[0], lAdd(lAdd(s.C[1], k), fmt.Sprint(i))), sSel(p.C[0], lAdd(p.C[1], fmt.Sprint(i)))))
+		}
+		return sAnd(conj...)
+	}
 	if p.Lit != nil {
 		var conj []string
 		for i := 0; i < len(*p.Lit); i++ {
